@@ -35,7 +35,7 @@ func cxTerm(ids []int) string {
 func runC18(o *out, r *rng, thorough bool, replay string) {
 	o.Rule = "cache histories: lookups (present, absent, zero key), own broadcasts, admitted remote broadcasts incl. floods of unsolicited chains larger than the discovered capacity, prunes, over several instances with small capacities (wanted 2..6, discovered 2..5), fed synchronously to the real PubSubChainExchange through an accessor and replayed on the model; admission: the real pubsub validator on constructed messages (undecodable, empty, malformed, past, too far ahead, timestamp window, base mismatch) with the mock clock; non-trivial = >=1 eviction happened or >=1 placeholder existed"
 	ctx := context.Background()
-	nh := 150
+	nh := 300
 	if thorough {
 		nh = 2000
 	}
@@ -52,7 +52,7 @@ func runC18(o *out, r *rng, thorough bool, replay string) {
 		viol := func(clause, sig, detail string) {
 			o.violate(clause, sig, map[string]any{"history": append([]string{}, desc...), "cap_wanted": capw, "cap_discovered": capd}, detail)
 		}
-		asked := map[string]bool{}    // instance/key looked up (wanted)
+		asked := map[string]bool{}     // instance/key looked up (wanted)
 		fulfilled := map[string]bool{} // asked and then admitted or broadcast
 		floodSince := map[string]int{}
 		for st := 0; st < steps; st++ {
@@ -118,6 +118,24 @@ func runC18(o *out, r *rng, thorough bool, replay string) {
 				}
 				ops = append(ops, fmt.Sprintf("CPrune %d", n))
 				desc = append(desc, fmt.Sprintf("prune %d", n))
+				// pruning removes EXACTLY the instances below n: nothing of an instance below n is retrievable afterwards --
+				// whatever was pruned before and whatever was inserted since (these look-ups are part of the history)
+				for i2 := uint64(5); i2 < n; i2++ {
+					for _, c2 := range [][]int{pool[r.intn(len(pool))], pool[r.intn(len(pool))]} {
+						_, ok := px.GetChainByInstance(ctx, i2, cxChain(c2).Key())
+						exp := "None"
+						if ok {
+							exp = "(Some " + cxTerm(c2) + ")"
+							viol("pruning removes exactly the instances below the given one", "cx-pruned-still-retrievable",
+								fmt.Sprintf("after prune(%d) the chain %v of instance %d is still returned", n, c2, i2))
+						} else {
+							placeholders++
+						}
+						asked[fmt.Sprintf("%d/%v", i2, c2)] = true
+						ops = append(ops, fmt.Sprintf("CLookup %d %s %s", i2, cxTerm(c2), exp))
+						desc = append(desc, fmt.Sprintf("lookup-after-prune %d %v -> %v", i2, c2, ok))
+					}
+				}
 			}
 		}
 		o.coqCase(fmt.Sprintf("cache history %d (capw=%d capd=%d): %s", hi, capw, capd, strings.Join(desc, " | ")),
@@ -199,7 +217,7 @@ func runC18(o *out, r *rng, thorough bool, replay string) {
 	}
 
 	// ---------- admission ----------
-	na := 200
+	na := 400
 	if thorough {
 		na = 3000
 	}
